@@ -24,6 +24,8 @@ type Engine struct {
 	CS      *Contracts
 	chanMsgs map[string]*ChanSpec
 	pendingAtomic bool
+	Quick    bool     // quick tier: clauses tagged [slow] are assumed, not re-proved
+	Deferred []string // obligations left to the thorough tier
 	lockRefs map[string]*lockRef
 
 	ctr      int
